@@ -33,3 +33,47 @@ func VerifEqualT(a, b *T) bool {
 	}
 	return true
 }
+
+type VerifSnap struct {
+	keys []FrameKey
+	vals []*T
+}
+
+func verifIsBuiltinFrame(f string) bool {
+	return f == "Builtin" || (len(f) > 9 && f[:9] == "Builtin::")
+}
+
+// VerifBuiltinSnapshot deep-copies every Builtin-frame method entry of TFrame except those of
+// the verification-only class Sym.
+func VerifBuiltinSnapshot() *VerifSnap {
+	s := &VerifSnap{}
+	for k, v := range TFrame {
+		if verifIsBuiltinFrame(k.frame) && k.targetClass != "Sym" && k.targetVariable == "" {
+			s.keys = append(s.keys, k)
+			c := v.DeepCopy()
+			c.Overloads = append([]T(nil), v.Overloads...)
+			s.vals = append(s.vals, c)
+		}
+	}
+	return s
+}
+
+// VerifBuiltinUnchanged reports whether every snapshotted entry is still present with the
+// same arguments, return type, flags, variants and overloads.
+func VerifBuiltinUnchanged(s *VerifSnap) bool {
+	for i, k := range s.keys {
+		cur, ok := TFrame[k]
+		if !ok || !VerifEqualT(cur, s.vals[i]) {
+			return false
+		}
+		if len(cur.defineArgs) != len(s.vals[i].defineArgs) || len(cur.Overloads) != len(s.vals[i].Overloads) {
+			return false
+		}
+		for j := range cur.Overloads {
+			if !VerifEqualT(&cur.Overloads[j], &s.vals[i].Overloads[j]) {
+				return false
+			}
+		}
+	}
+	return true
+}
